@@ -953,7 +953,25 @@ func (x *Exec) instr(in ssa.Instruction) {
 			cur = l.Path[len(l.Path)-1].Sort
 		}
 		if _, ok := e.structs[cur]; !ok {
-			x.fail("field address into opaque type %s", cur)
+			// A struct type of another module: its fields are not modelled as a
+			// datatype. The field is a separate cell of the field's type whose
+			// address is an injective function of the struct's address.
+			base := x.val(in.X).T
+			if len(l.Path) == 0 && l.Idx == "" && l.Ref != "" {
+				base = l.Ref
+			} else if x.val(in.X).Loc != nil {
+				base = ""
+			}
+			if base == "" {
+				x.fail("field address into opaque type %s", cur)
+			}
+			fn := fmt.Sprintf("fieldcell!%s!%d", sanitize(cur), in.Field)
+			e.decl(fmt.Sprintf("(declare-fun %s (Int) Int)", fn))
+			t := fmt.Sprintf("(%s %s)", fn, base)
+			e.assume(x.guard, fmt.Sprintf("(and (> %s 0) (< %s %s))", t, t, x.brk()))
+			e.assumptionsUsed["fields of struct types of other modules (rtnetlink messages, ...) are separate cells addressed by a function of the struct's address; only calls that may assign everything change them"] = true
+			x.vals[in] = Val{Sort: "Int", GT: in.Type(), T: t}
+			return
 		}
 		nl.Path = append(append([]PathElem(nil), l.Path...), e.fieldElem(cur, in.Field))
 		x.vals[in] = Val{Sort: "Int", GT: in.Type(), Loc: &nl, T: ""}
